@@ -30,8 +30,9 @@ type snode struct {
 }
 
 type sgen struct {
-	r   *rand.Rand
-	seq int
+	r      *rand.Rand
+	seq    int
+	noSize bool // no size / fixed properties (streams that need every element column to be read)
 }
 
 var sgScalars = []string{"int32", "uint32", "int64", "uint64", "string", "bool", "float", "double", "datetime", "duration", "fraction", "comparator", "enum<.FruitType>", "sint32", "bytes"}
@@ -51,7 +52,7 @@ func (g *sgen) tname() string {
 // sizeProp: an explicit cardinality on a horizontal aggregate of n column groups — smaller, equal or LARGER than n
 // (a larger size pads with empty elements; protogen never compares it with the header) — or fixed:true
 func (g *sgen) sizeProp(n int) string {
-	if g.r.Intn(5) != 0 {
+	if g.noSize || g.r.Intn(5) != 0 {
 		return ""
 	}
 	if g.r.Intn(3) == 0 {
